@@ -97,7 +97,10 @@ HierCases == UNION {{[k |-> "hier", h |-> h, cls |-> c] : c \in Assign(NClasses(
 SigCases == {[k |-> "sig", d |-> d, ps |-> s] : d \in Decorators, s \in SigSeqs}
 NameCases == {[k |-> "name", d |-> d, n |-> SMAttrs[i]] : d \in Decorators, i \in 1..Len(SMAttrs)}
              \cup {[k |-> "name", d |-> d, n |-> n] : d \in Decorators, n \in SafeNames}
-OtherCases == {[k |-> kk, d |-> d] : kk \in {"alias", "outside", "call", "call_on_class"}, d \in Decorators}
+\* alias / outside: a fresh state object; *_reuse: a state object that was first bound legitimately in a StateMachine
+\* and is then bound again, under another name in another StateMachine / in a class that is not a StateMachine
+OtherCases == {[k |-> kk, d |-> d] : kk \in {"alias", "outside", "alias_reuse", "outside_reuse", "call", "call_on_class"},
+                                    d \in Decorators}
 AllCases == HierCases \cup SigCases \cup NameCases \cup OtherCases
 
 Init == case \in AllCases
@@ -109,8 +112,8 @@ Expected(c) ==
                           descr |-> Descriptions(c.h, c.cls)]
       [] c.k = "sig" -> [accepted |-> SigAccepted(c.ps)]
       [] c.k = "name" -> [accepted |-> ~InAttrs(c.n)]
-      [] c.k = "alias" -> [error |-> "InvalidStateName"]
-      [] c.k = "outside" -> [error |-> "TypeError"]
+      [] c.k \in {"alias", "alias_reuse"} -> [error |-> "InvalidStateName"]
+      [] c.k \in {"outside", "outside_reuse"} -> [error |-> "TypeError"]
       [] c.k \in {"call", "call_on_class"} -> [error |-> "IllegalCallError"]
 
 (* C12, as laws over the enumerated universe *)
